@@ -16,7 +16,10 @@ RULE = ('real TransmissionModel (2-30 layers, 1-5 wavenumbers, thin/mid/thick ab
         'zero width; the same classes DECLARED IN AN INPUT FILE ([Model] section text -> ParameterParser -> factory.create_model / '
         'generate_contributions / create_klass) with non-integer values, bounds left out (= unset), other keywords left out '
         '(= constructor default, cloud top included), in one session after a section of the same class that declares every '
-        'keyword. distinct non-trivial = distinct (kind, bound class, layers, method, route) where the contribution '
+        'keyword; one case in five on a whole-number wavenumber grid held as an int64 / int32 array; every cloud case also with the '
+        'deck attached by add_contribution() to the built, already run cloud-free model (deck evaluated last); every haze case '
+        'also judged on the optical depth added along each ray (sigma x density x chord, altitude grid of a default-ray-tracer twin)'
+        '. distinct non-trivial = distinct (kind, bound class, layers, method, route) where the contribution '
         'affects some but not all layers')
 ASSUMPTIONS = ['np.searchsorted(side="right") on a sorted array = number of elements <= v (Interp.searchRight)',
                'x**y (numpy power) modelled as exp(y*log x) for x > 0; pi is passed in as np.pi',
@@ -107,6 +110,13 @@ def base_spec(rng, k):
     nl = int(rng.integers(2, 31)) if rng.random() < 0.8 else int(rng.integers(2, 5))
     spec = FM.gen_spec(rng, nlayers=nl, regime=regime, same_grid=True, nwn=int(rng.integers(1, 6)), with_cia=False)
     spec['new_path_method'] = bool((k // 4) % 2)
+    if k % 5 == 3:
+        # a table whose wavenumber grid holds whole numbers in an INTEGER array (np.arange(1000, 3000, 50)): the grid the
+        # contributions are prepared on is then an integer array
+        for o in spec['opacities']:
+            o['wn'] = np.floor(np.asarray(o['wn'], float))
+            o['wn_dtype'] = ['int64', 'int32'][(k // 5) % 2]
+        spec['wn_dtype'] = spec['opacities'][0]['wn_dtype']
     others = [dict(type='absorption')]
     if rng.random() < 0.3:
         others.append(dict(type='rayleigh'))
@@ -380,6 +390,7 @@ def eval_cloud(ctx, spec):
         ctx.violation('cloud-depth-below-floor:' + spec['cls'],
                       'depth below the documented integral with the cloudy layers opaque', spec,
                       dict(depth=depth, floor=floor, without=depth0))
+    late_deck(ctx, spec, m0, mtr, cloudy, trans0, depth0, floor)
     part = bool(np.any(cloudy) and np.any(clear))
     route = spec.get('route') or 'python'
     ctx.case(key=('cloud', spec['cls'], n, new, route) if part else None,
@@ -387,7 +398,90 @@ def eval_cloud(ctx, spec):
                          route=route, omit=spec.get('omit')),
              bucket=('cloud:' if route == 'python' else 'cloud:input-file:') + spec['cls'])
     ctx.bucket('cloud-layers:' + ('none' if not cloudy.any() else 'all' if cloudy.all() else 'some'))
+    if spec.get('wn_dtype'):
+        ctx.bucket('cloud:wavenumber-grid-dtype:' + spec['wn_dtype'])
     reuse_check(ctx, spec, m)
+
+
+def late_deck(ctx, spec, m0, mtr, cloudy, trans0, depth0, floor):
+    """the deck attached with the public add_contribution() to a model that is already built and has already run, and the
+    model run again (no second build(), so the list is not re-sorted by `.order`): the deck is then evaluated AFTER the
+    contributions that were there.  The layers above the top must still be untouched, the layers at or below it opaque.
+    Where the absorbers alone push a whole row above tau = 10 the loop over the contributions stops before the deck (the
+    licensed cut-off): opaque then means a transmittance below exp(-10) (the deck-first model value is 0)."""
+    p0 = spec['extra']['clouds_pressure']
+    try:
+        m0.add_contribution(FM.make_contribution(spec['extra']))
+        wn, depth, trans, p, contribs = T.observe(m0)
+        order = [type(c).__name__ for c in m0.contribution_list]
+    except Exception as e:
+        ctx.violation('cloud-raises:late-attached:' + type(e).__name__, 'a cloud deck attached to a built model with '
+                      'add_contribution() raised %r when the model was run again' % (e,), spec)
+        return
+    ctx.bucket('cloud:deck-attached-after-build:evaluated-' + ('first' if order[0] == 'SimpleCloudsContribution' else 'last'))
+    case = dict(spec, late_attached=True)
+    clear = ~cloudy
+    ctx.disagreements_checked += 1
+    for l in range(len(cloudy)):
+        if cloudy[l]:
+            ok = np.all(trans[l] <= E10 * (1 + 1e-9)) and np.all(mtr[l] == 0)
+        else:
+            ok = T.trans_close(trans[l], mtr[l]) or (np.all(trans[l] <= E10 * (1 + 1e-9)) and np.all(mtr[l] <= E10 * (1 + 1e-9)))
+        if not ok:
+            ctx.mismatch('exp(-tau) with a cloud deck attached after build() vs Haze.cloudyTrans', case,
+                         dict(layer=l, impl=trans[l], model=mtr[l], order=order))
+            break
+    if np.any(trans[cloudy] > E10 * (1 + 1e-9)):
+        ctx.violation('cloud-not-opaque:late-attached', 'a cloud deck attached to a built model (evaluated after the other '
+                      'contributions): a layer at or below the cloud top is not opaque', case,
+                      dict(p0=p0, trans=trans[cloudy][:3], order=order))
+    if np.any(clear) and not C.close(trans[clear].ravel(), trans0[clear].ravel(), rel=1e-12):
+        ctx.violation('cloud-touches-clear-layers:late-attached', 'a cloud deck attached to a built model (evaluated after '
+                      'the other contributions) changed a layer above the cloud top', case,
+                      dict(p0=p0, with_cloud=trans[clear][:3], without=trans0[clear][:3], order=order))
+    # licensed: a cloudy row the absorbers saturated before the deck was reached keeps exp(-tau) < exp(-10) instead of 0
+    band = E10 * float(np.sum((2 * (p['rp'] + p['z']) * p['dz'])[cloudy])) / p['rs'] ** 2
+    if np.any(depth < floor * (1 - 1e-12) - band) or np.any(depth < depth0 * (1 - 1e-12)):
+        ctx.violation('cloud-depth-below-floor:late-attached', 'a cloud deck attached to a built model: depth below the '
+                      'documented integral with the cloudy layers opaque', case,
+                      dict(depth=depth, floor=floor, without=depth0, order=order))
+
+
+def ray_extinction(ctx, spec, kind, sig, trans, trans0, p):
+    """the extinction the haze adds along every ray: -ln(T_with) + ln(T_without) of tangent layer l must be the declared
+    cross-section times the column the ray crosses, sum_k sigma[l+k] * n[l+k] * chord_l[k], with the chords of the ray through
+    the spherical shells of the model's hydrostatic altitude grid (both ray tracers).  The altitude grid is read from a twin
+    model run with the default ray tracer (the grid is a property of the atmosphere, not of the ray tracer)."""
+    new = bool(spec['new_path_method'])
+    try:
+        if new:
+            twin = T.run_real(dict(with_contribs(spec, spec['extra']), new_path_method=False))
+            g = twin[4]
+        else:
+            g = p
+    except Exception as e:
+        ctx.violation(kind + '-raises:twin:' + type(e).__name__, 'the same model with the default ray tracer raised %r' % (e,), spec)
+        return
+    rp, z, dz, zb, dens = g['rp'], g['z'], g['dz'], g['zb'], g['density']
+    paths = T.chords_new(rp, zb, z, dz) if new else T.chords_old(rp, z, dz)
+    n = len(z)
+    ctx.bucket(kind + ':ray-extinction:' + ('new-path-method' if new else 'default-path-method'))
+    with np.errstate(divide='ignore', invalid='ignore'):
+        for l in range(n):
+            exp_add = (sig[l:] * (paths[l] * dens[l:])[:, None]).sum(axis=0)
+            live = (trans[l] > E10 * 1.001) & (trans0[l] > E10 * 1.001)          # rows the tau > 10 cut-off did not touch
+            if not np.any(live):
+                continue
+            t0 = -np.log(trans0[l][live])
+            got = -np.log(trans[l][live]) - t0
+            want = exp_add[live]
+            tol = 1e-8 * np.abs(want) + 1e-11 * (1 + t0 + np.abs(want))
+            if np.any(np.abs(got - want) > tol):
+                ctx.violation(kind + '-ray-extinction:' + ('new-path-method' if new else 'default-path-method'),
+                              'the optical depth the haze adds to a ray is not its declared cross-section times the number '
+                              'density times the chord of the ray through each layer', spec,
+                              dict(layer=l, added=got, expected=want, new_path_method=new))
+                return
 
 
 # ----------------------------------------------------------------------------------------- hazes
@@ -559,8 +653,11 @@ def eval_haze(ctx, spec):
     if np.any((trans > trans0 * (1 + 1e-9)) & ~lic):
         ctx.violation(kind + '-more-transparent:' + spec['cls'], 'adding a haze increased a transmittance', spec,
                       dict(with_haze=trans[:3], without=trans0[:3]))
+    ray_extinction(ctx, spec, kind, sig, trans, trans0, p)
     part = bool(np.any(affected) and not np.all(affected))
     route = spec.get('route') or 'python'
+    if spec.get('wn_dtype'):
+        ctx.bucket(kind + ':wavenumber-grid-dtype:' + spec['wn_dtype'])
     ctx.case(key=(kind, spec['cls'], n, bool(spec['new_path_method']), route) if part else None,
              sample=dict(sm, sigma=sig[:4, 0], model=(msig[:4] if kind == 'flat' else msig[:4, 0]), route=route,
                          omit=spec.get('omit')),
